@@ -6,6 +6,7 @@ import (
 	"time"
 
 	"github.com/scrapli/scrapligo/util"
+	"github.com/scrapli/scrapligo/util/simhook"
 )
 
 const (
@@ -119,6 +120,12 @@ func (t *Telnet) handleControlChars(a *Args) error {
 // Open opens the Telnet connection.
 func (t *Telnet) Open(a *Args) error {
 	var err error
+
+	if sc := simhook.Dial(tcp, fmt.Sprintf("%s:%d", a.Host, a.Port)); sc != nil {
+		t.c = sc
+
+		return t.handleControlChars(a)
+	}
 
 	t.c, err = net.Dial(tcp, fmt.Sprintf("%s:%d", a.Host, a.Port))
 	if err != nil {
